@@ -54,7 +54,7 @@ CHECKS["C16"] = ("bfs + devdfs (worker subprocesses)", "model_checking",
 CHECKS["C17"] = ("devdfs (worker subprocesses)", "fault_enumeration",
     "deviation-bounded enumeration of environment events (wake, SIGWINCH, SIGTERM, input, hang-up) at every system-call boundary and of every crash point, real UnixTerminal on a pty",
     "Same explorer as C16(b). In addition a waker call, SIGWINCH, SIGTERM, the next input bytes or a hang-up may land before ANY select/write/read or between the signal, waker and input "
-    "phases of the poll loop (hook points), each costing one deviation; polls use timeouts 0, 5 ms (virtual clock) and infinite; the terminal is released after every prefix of every session. "
+    "phases of the poll loop (hook points), each costing one deviation; polls use timeouts 0, 5 ms (virtual clock) and infinite; bursts of 127 / 128 / 256 / 1024 wake requests before one poll; the terminal is released after every prefix of every session. "
     "Oracle: a wake is followed by a Wake event from the current or a later poll and never blocks a poll for ever; SIGWINCH yields a Resize; SIGTERM yields the quit error; input bytes come out "
     "as the events a reference decoder gives, in order; no quit without cause; after release tcgetattr equals the saved settings and, if the tty kept accepting writes, the closing sequence "
     "(cursor visible, mouse modes off) was delivered. Every failing schedule is replayed twice and must fail identically.",
@@ -75,7 +75,7 @@ CHECKS["C11"] = ("bfs / history enumeration", "model_checking",
     "exhaustive enumeration of draw/erase/response histories on the real KittyImageHandler against an independent kitty-graphics parser and reference terminal image store",
     "All histories of depth 3 (no de-duplication; 1.19 M) and, de-duplicated by (transmitted ids, reference terminal state), depth 4 (6) over a 106-operation alphabet (7 images incl. 1x1, cropped/strided view, equal pixels in another allocation, "
     "empty, exactly-4096-byte payload, three-chunk payload; 4 positions incl. the origin and (65535,65535); draw, erase(Some), erase(None), OK and error responses for known and unknown ids, unrelated events) are executed on the real handler, "
-    "plus the .quiet() handler, 1 024 single-pixel images over every channel value and thousands of sizes across the chunk boundaries. The emitted bytes are parsed by an independent APC/kitty parser and fed to a reference terminal store; "
+    "plus every history of 2 (3) operations over a second set of 11 images that differ in memory layout (row-major, transposed, windows with gaps, re-allocated copies; ids must be injective on content), the .quiet() handler, 1 024 single-pixel images over every channel value and thousands of sizes across the chunk boundaries. The emitted bytes are parsed by an independent APC/kitty parser and fed to a reference terminal store; "
     "oracle: valid commands, s/v = image size, f=32, chunks <= 4096 and multiples of 4 with correct m flags, payload base64-decodes to the exact RGBA pixels row-major, at most one transmission per content (plus one per evicting error), "
     "every put names a transmitted image, erase(img, Some(pos)) removes exactly the placement draw(img,pos) created.",
     "Trusts the reading of the kitty graphics protocol in model/kitty.rs (p=0 = unspecified); id hash collisions are out of reach of enumeration.",
@@ -108,14 +108,14 @@ CHECKS["C18"] = ("bfs + sweep", "model_checking",
     "BFS over histories of register(chord of length 1-3 over {a,b,ctrl+c}) to depth 3 (4) and over {a,b} to depth 4 (6) with an observational key (for_each listing + lookup of every chord up to length 4): in every state all lookups, "
     "the enumeration and register's return value are compared with a last-writer-wins prefix-free dictionary. register_override over all ordered pairs of 1 435 (2 729) small maps. KeyMapHandler/lookup_state on every prefix-free set of up to 3 (4) chords x "
     "every key string up to length 5 (6) over {a,b,c,x}: fires exactly at the last key from idle, an unbound key never blocks the next chord, every firing is sound. Parsers: all strings of <= 3 (5) tokens over a 24-token alphabet, f+1..30 digits, "
-    "every KeyName x 2^9 modifier sets printed and re-parsed.",
+    "every KeyName x 2^9 modifier sets printed and re-parsed, every code point below U+3000 (every scalar value) in ten raw spellings (bare, quoted, with modifiers, inside chords).",
     "What happens after a partially typed chord is abandoned by a key that itself begins a chord is not demanded (statement silent); chords longer than 3 as registrations are not explored.",
     "DESIGN.md §C18")
 CHECKS["C20"] = ("sweep", "exploration",
     "complete sweep of all 2^24 colours through the real encoder against brute force over the xterm palette",
     "All 2^24 opaque colours are encoded with the real TTYEncoder as Face.fg under EightBit, Gray and TrueColor (quick; bg and underline colour on the complete 65^3 lattice), and at all five call sites (Face.fg/bg, FaceModify.fg/bg/underline_color) in thorough; "
     "the emitted SGR is parsed independently. EightBit: index in 16..=255 whose distance (library's LinColor metric, palette from its sRGB xterm definition) is within 1e-5 of the brute-force minimum over all 240 entries; Gray: nearest of the four levels by luma and monotone over the sorted sweep; "
-    "TrueColor: exact r;g;b.",
+    "TrueColor: exact r;g;b. Two-emission histories on one encoder (16^3 colour lattice x {same colour, neighbour, half-transparent twin} x 25 role pairs x 3 depths): the second emission is judged like a fresh encoder's.",
     "Trusts LinColor::distance / From<RGBA> as the metric the statement refers to; ties within 1e-5 (table rounding) are not judged.",
     "DESIGN.md §C20")
 
@@ -132,7 +132,8 @@ CHECKS["C05"] = ("sweep", "exploration",
     "All 28 TerminalCommand variants x boundary lattices (positions/counts {0,1,2,9,10,99,65535}, signed moves and scrolls over {MIN,MIN+1,-10,-1,0,1,10,MAX}^2, all DEC modes, palette names and colours, every printable title / capability name up to length 2 (3), "
     "150 528 (3.05 M) faces = colours x all attribute sets x underline styles, 72 576 face modifications) x 12 configurations (3 colour depths x kitty keyboard x glyphs) are encoded by the real TTYEncoder and parsed by model/ecma48.rs "
     "(byte-level C0/ESC/CSI/OSC/DCS/APC parser + operation decoder written from ECMA-48 / xterm ctlseqs); the operation list must equal the command's denotation with exact parameters, SGR must select exactly the requested rendition from three different "
-    "start renditions, encode never panics; all 2 025 ordered pairs of 45 representative commands in one stream must parse back to the concatenation (self-containedness).",
+    "start renditions, encode never panics; all 2 025 ordered pairs of 45 representative commands in one stream must parse back to the concatenation (self-containedness); colour history: every ordered pair of 24 colours (6 RGB x 4 alpha values) "
+    "in every ordered pair of colour slots under the three depths, as two commands on one encoder and as one command, must convert each colour as a fresh encoder does.",
     "Trusts the interpreter's reading of the standards; which palette entry is chosen at reduced depth is C20; Gray-depth underline colour may be dropped (no SGR form exists).",
     "DESIGN.md §C05")
 CHECKS["C06"] = ("sweep + bfs", "model_checking",
@@ -146,7 +147,8 @@ CHECKS["C06"] = ("sweep + bfs", "model_checking",
 CHECKS["C07"] = ("bfs", "model_checking",
     "explicit-state BFS over chains of view/transpose to the fixpoint of the shape graph on the real surface types against a list-of-lists window model",
     "Bases with sides 0..=5 (0..=8) in a dense and a strided/padded layout, 122 operations (transpose and view(rows, cols) over an 11-symbol selector alphabet incl. negative, inclusive, open, empty and out-of-range bounds); key = base + Shape; the BFS runs to the "
-    "fixpoint (5 001 / 57 794 states, so chain length is unbounded). Every transition re-executes the program through four ownership paths (view on &S, view_mut, view_owned on &mut S, nested owned view over Box<dyn SurfaceMut>) which must agree, and runs the full access battery: "
+    "fixpoint (5 001 / 57 794 states, so chain length is unbounded). Every transition re-executes the program through five ownership paths (view on &S, view_mut, view_owned on &mut S, nested owned view over Box<dyn SurfaceMut>, and - for chains of up to 4 steps - method calls on values of the concrete view types, "
+    "so the caller's method resolution is exercised) which must agree, and runs the full access battery: "
     "get/get_mut inside and in a ring outside (incl. usize::MAX probes), iter (count, order, position, index), iter_mut with the raw addresses of all yielded references required pairwise distinct and inside the window, nth, fill, fill_with, clear, insert at every offset, map, "
     "to_owned_surf, each against the window model, with a sentinel copy of the base compared after every mutation. Thorough adds a Miri replay of a reduced program set (supplementary UB detector, never the decider).",
     "Range resolution itself is C08; the `end` field is judged by its documentation ('offset of the last + 1 element'); sides above 8 and selectors outside the alphabet are not explored.",
@@ -156,7 +158,7 @@ CHECKS["C09"] = ("sweep", "exploration",
     "All sequences of up to 4 (6) cells over 12 kinds (narrow, 2-byte, wide, two zero-width, newline, tab, CR, glyph with narrow / wide fallback, images of 1 and 2x2 cells) are written into views of 1..3 x 1..5 cells placed plainly, offset, strided (stride 2) and transposed "
     "inside a 7x10 sentinel canvas, wraps on/off, glyph support on/off, cursor at the origin or in the last column, through put_cell, io::Write on TerminalWriter, utf8_writer(), tty_writer() (SGR between characters) and the Text view (layout + render). "
     "Oracle: no canvas cell outside the view changes; ALL 2^(n-1) partitions of the bytes into write calls (byte strings up to 12 bytes; <= 2 cuts and byte-by-byte beyond) give the same canvas and no partition-dependent error; the write paths agree with each other; "
-    "for Text rendered into the size its own layout reported for max widths 1..6 every printable cell (glyph fallback characters without glyph support) appears exactly once in reading order, with wrapping off only cells beyond the right edge are missing.",
+    "for Text rendered into the size its own layout reported for max widths 1..6 every printable cell (glyph fallback characters without glyph support) appears exactly once in reading order, with wrapping off only cells beyond the right edge are missing; for texts with a glyph or image the same holds for a value that was laid out before under the other glyph capability, another cell size and another width and then cloned (layout history).",
     "Texts containing CR are exempt from 'exactly once'; widths above 6 and longer sequences are not explored.",
     "DESIGN.md §C09")
 CHECKS["C10"] = ("sweep", "exploration",
